@@ -65,6 +65,20 @@ def make_input(B, layout, n, p, cplx=False, flags=None, name="x", nan_cols=(), n
     raise ValueError(layout)
 
 
+def extreme_witness(X, witness):
+    """same symbolic generality (image of arbitrary data under an invertible affine map with concrete coefficients), but the
+    WITNESS sits at an edge of the properties' quantifiers: witness = {'scale': 1e8} or {'offset': 1e7} (offset in units of the spread)"""
+    if not witness or not isinstance(X, xr.DataArray):
+        return X
+    nm = X.name
+    if "scale" in witness:
+        X = X * float(witness["scale"])
+    if "offset" in witness:
+        X = X + float(witness["offset"])
+    X.name = nm
+    return X
+
+
 def make_weights(B, X, fdims, name="w"):
     def one(da, nm):
         dims = [d for d in da.dims if d in fdims or d in ("x", "y", "lat", "lon")]
